@@ -120,7 +120,7 @@ def write_shard(prop, tag, k, items):
     """items: list of (index, coq_term)."""
     lines = [f'From PV Require Import {m}.' for m in prop.coq_imports_short()]
     lines += ['From Coq Require Import List String ZArith QArith.', 'Import ListNotations.',
-              'Open Scope string_scope.', '']
+              'Open Scope string_scope.', 'Set Printing Width 1000000.', '']
     for idx, term in items:
         lines.append(f'Definition c{idx} : nat := {term}.')
     pairs = '; '.join(f'({idx}%nat, c{idx})' for idx, _ in items)
@@ -153,7 +153,7 @@ def eval_in_coq(prop, tag, terms, jobs=16):
         out = Path(str(p) + '.out').read_text()
         if 'FAIL' in out or 'Error' in out:
             raise RuntimeError(f'case shard {p.name} failed to evaluate:\n{out[-3000:]}')
-        for m in re.finditer(r'\((\d+)(?:%nat)?,\s*(\d+)(?:%nat)?\)', out):
+        for m in re.finditer(r'\(\s*(\d+)(?:%nat)?\s*,\s*(\d+)(?:%nat)?\s*\)', out):
             result[int(m.group(1))] = int(m.group(2))
     for old in list(CASES.glob(f'{tag}_*')) + list(CASES.glob(f'.{tag}_*')):
         old.unlink()
@@ -188,12 +188,32 @@ def _init_worker(modname):
     _PROP = importlib.import_module(modname).Prop()
 
 
+class CaseTimeout(BaseException):
+    pass
+
+
+def _alarm(signum, frame):
+    raise CaseTimeout('implementation run exceeded the per-case time limit')
+
+
 def _run_one(case):
+    import signal
+    limit = int(getattr(_PROP, 'case_timeout', 120))
+    old = None
+    try:
+        old = signal.signal(signal.SIGALRM, _alarm)
+        signal.alarm(limit)
+    except ValueError:
+        old = None   # not in the main thread of this process
     try:
         return _PROP.run_impl(case)
     except BaseException as e:  # harness failure, not an observation
         import traceback
         return {'__harness_error__': f'{type(e).__name__}: {e}', 'tb': traceback.format_exc()[-1500:]}
+    finally:
+        if old is not None:
+            signal.alarm(0)
+            signal.signal(signal.SIGALRM, old)
 
 
 def run_impl_all(prop, modname, cases, jobs=16):
